@@ -72,6 +72,22 @@ func registerTimeStubs() {
 		}
 		return ns
 	})
+	unixDiv := func(div int64) externalFn {
+		return ext1(func(fr *frame, a []value) value {
+			z, ns := timeParts(a[0])
+			if z {
+				unsupported("Unix*() of the zero time.Time")
+			}
+			// instants of the domain are non-negative, so truncated and floor division agree
+			return fr.i.arith(token.QUO, ns, div)
+		})
+	}
+	externals["(time.Time).UnixMilli"] = unixDiv(1e6)
+	externals["(time.Time).UnixMicro"] = unixDiv(1e3)
+	externals["(time.Time).Unix"] = unixDiv(1e9)
+	externals["time.UnixMilli"] = ext1(func(fr *frame, a []value) value {
+		return absTime(fr.i.arith(token.MUL, a[0], int64(1e6)))
+	})
 	externals["(time.Time).Add"] = ext1(func(fr *frame, a []value) value {
 		z, ns := timeParts(a[0])
 		if z {
